@@ -138,9 +138,10 @@ class Module:
             self.tree = ast.parse(source)
         except SyntaxError as e:
             raise AnalysisError(f"module {name} does not parse: {e}")
-        from .canon import normalise
+        if not os.environ.get("SA_SHOW_RAW"):  # sa.show prints the un-canonicalised text (what variant locators match)
+            from .canon import normalise
 
-        self.tree = normalise(self.tree)  # equivalent spellings reduced to one canonical form (sa/canon.py)
+            self.tree = normalise(self.tree)  # equivalent spellings reduced to one canonical form (sa/canon.py)
         self.funcs = {}
         self.classes = {}
         self.aliases = {}  # local name -> dotted
